@@ -721,8 +721,16 @@ func PlantText(t *rapid.T, kind ref.PKind, n ast.Node, label string) (string, st
 		if err != nil {
 			return "", "", err
 		}
-		i := rapid.IntRange(0, len(exprContexts)-1).Draw(t, label+"ectx")
-		ctx := exprContexts[i]
+		ctxs := exprContexts
+		if _, isCall := n.(*ast.CallExpr); isCall {
+			// positions only a call may occupy: the slot's static type is *ast.CallExpr
+			ctxs = append(append([]string{}, exprContexts...), "defer %s", "go %s", "%s", "defer %s", "go %s")
+		}
+		i := rapid.IntRange(0, len(ctxs)-1).Draw(t, label+"ectx")
+		ctx := ctxs[i]
+		if strings.HasPrefix(ctx, "%") {
+			return fmt.Sprintf(ctx, txt), "ectx:stmt", nil
+		}
 		return fmt.Sprintf(ctx, txt), "ectx:" + strings.SplitN(ctx, "%", 2)[0], nil
 	case ref.PStmts:
 		var parts []string
